@@ -73,6 +73,28 @@ def build(kind, text, variables, subspecs=(), consts=(), io_types=None, semantic
     return s
 
 
+def build_steps(kind, text, variables, steps, subspecs=()):
+    """like build(), with the configuration calls in the given order.  steps: 'parse' | 'pastify' | ('unit', u) | ('period', (p, unit[, tol]))"""
+    s = new_spec(kind)
+    for v in variables:
+        s.declare_var(v, 'float')
+    for t in subspecs:
+        s.add_sub_spec(t)
+    s.spec = text
+    for st in steps:
+        if st == 'parse':
+            s.parse()
+        elif st == 'pastify':
+            s.pastify()
+        elif st[0] == 'unit':
+            s.unit = st[1]
+        elif st[0] == 'period':
+            s.set_sampling_period(*st[1])
+        else:
+            raise ValueError(st)
+    return s
+
+
 @contextlib.contextmanager
 def quiet():
     """rtamt's discrete LnOperation prints to stdout; keep the check's output clean"""
